@@ -438,8 +438,10 @@ type NativeTrace struct {
 // buildNative compiles the test binary of pkgDir with the harness overlay.
 func (ld *Loaded) buildNative(pkgDir string) (string, error) {
 	ov := map[string]map[string]string{"Replace": {}}
+	// the package's own overlay files plus those of every generated package (a harness
+	// package may import another generated package)
 	for virt, real := range ld.realFiles {
-		if filepath.Dir(virt) == filepath.Join(repoDir, pkgDir) {
+		if filepath.Dir(virt) == filepath.Join(repoDir, pkgDir) || strings.Contains(virt, "/zz_verif_gen/") {
 			ov["Replace"][virt] = real
 		}
 	}
